@@ -64,6 +64,20 @@ expect = {
     pointless: ['Pointless global statement (index 4)', 'Pointless global statement (index 5)',
                 'Pointless statement in function "ff" (index 1)'],
 }
+# a second definition of a function name is the one in effect at run time: its body is linted like any other
+redefined = """function helper(a):
+    return a
+endfunction
+function helper(a, a):
+    jumpif (a) done
+    here:
+    here:
+    return a
+endfunction
+"""
+expect[redefined] = ['Redefinition of function "helper" (index 1)', 'Duplicate argument "a" of function "helper" (index 1)',
+                     'Redefinition of label "here" in function "helper" (index 2)', 'Unused label "here" in function "helper" (index 1)',
+                     'Unknown label "done" in function "helper" (index 0)']
 bad = []
 for text, want in expect.items():
     got = lint_script(parse_script(text))
